@@ -233,12 +233,12 @@ Section Loop.
       { intros j e Hj Hc. destruct (Nat.lt_ge_cases j (n_commit n1)) as [Hlt|Hge]; [exact Hlt|].
         pose proof (H1 Hlead j e Hj Hc Hge). lia. }
       assert (Hn2 : nok n2) by (unfold nok, n2; cbn [set_log n_log n_commit]; apply cc_ok_pending; assumption).
-      destruct (role_eqb (n_role n2) Leader && member cc1 id).
+      destruct (role_eqb (n_role n2) Leader && tracked cc1 id).
       + destruct (leader_ack_props (c_in cc1) (c_out cc1) id (length (n_log n)) n2) as (A' & B' & C' & D' & E' & _). cbn zeta in *.
         split; [apply (PD_weaken n2); [exact H2|exact C'|congruence|exact E']|].
         apply (plain_nok n2); [left; split; assumption|exact Hn2].
       + split; assumption.
-    - destruct (role_eqb (n_role n1) Leader && member cc1 id).
+    - destruct (role_eqb (n_role n1) Leader && tracked cc1 id).
       + destruct (leader_ack_props (c_in cc1) (c_out cc1) id (length (n_log n)) n1) as (A' & B' & C' & D' & E' & _). cbn zeta in *.
         split; [apply (PD_weaken n1); [exact H1|exact C'|congruence|exact E']|].
         apply (plain_nok n1); [left; split; assumption|exact Hn1].
@@ -271,9 +271,13 @@ Section Event.
   Proof.
     intros s id c ev pend I H2 Hev Hpd Hn. set (n := nodes s id) in *. unfold handle_cc.
     destruct ev as [|p|m| |];
-      try (cbn [fst]; apply (handle_nok F s I H2 (c_in c) (c_out c) id); [intros q; discriminate|exact Hev|exact Hn]).
+      try (cbn [fst];
+           match goal with |- nok (learner_ack ?cc ?e ?nn) =>
+             destruct (learner_ack_props cc e nn) as (_ & _ & LA & _ & LC); cbn zeta in LA, LC;
+             apply (plain_nok nn); [left; split; [exact LA|exact LC]|] end;
+           apply (handle_nok F s I H2 (c_in c) (c_out c) id); [intros q; discriminate|exact Hev|exact Hn]).
     destruct (n_role n) eqn:Er; try exact Hn.
-    destruct (negb (member c id)); [exact Hn|].
+    destruct (negb (tracked c id)); [exact Hn|].
     assert (Hplain : forall q, isconf q = false -> nok (propose q n)).
     { intros q Hq. unfold propose. rewrite Er. unfold nok. cbn [set_log n_log n_commit]. apply cc_ok_app_plain; assumption. }
     destruct (cc_of_payload p) as [op|] eqn:Ep; cbn [fst].
@@ -294,7 +298,7 @@ Section Event.
     nok (fst (fst (exec_cc boot page1 id ev (nodes s id, pend)))).
   Proof.
     intros s id ev pend I H2 Hev Hpd Hn. unfold exec_cc.
-    destruct (match ev with EvRecv m => is_response (m_type m) && negb (member (node_cfg boot (nodes s id)) (m_from m)) | _ => false end);
+    destruct (match ev with EvRecv m => is_response (m_type m) && negb (tracked (node_cfg boot (nodes s id)) (m_from m)) | _ => false end);
       [cbn; exact Hn|].
     pose proof (handle_cc_nok s id (node_cfg boot (nodes s id)) ev pend I H2 Hev Hpd Hn) as N1.
     pose proof (handle_cc_PD id (node_cfg boot (nodes s id)) ev (nodes s id) pend Hpd) as P1.
@@ -324,13 +328,13 @@ Section Event.
   Lemma exec_cc_out_noapp : forall id ev st m, In m (snd (exec_cc boot page1 id ev st)) -> m_type m <> MsgApp.
   Proof.
     intros id ev [n pend] m H. unfold exec_cc in H.
-    destruct (match ev with EvRecv m0 => is_response (m_type m0) && negb (member (node_cfg boot n) (m_from m0)) | _ => false end);
+    destruct (match ev with EvRecv m0 => is_response (m_type m0) && negb (tracked (node_cfg boot n) (m_from m0)) | _ => false end);
       [contradiction|].
     assert (Hh : forall m', In m' (snd (fst (handle_cc id (node_cfg boot n) ev n pend))) -> m_type m' <> MsgApp).
     { intros m' Hm'. unfold handle_cc in Hm'. destruct ev as [|p|m0| |];
         try (cbn [fst snd] in Hm'; eapply handle_out_noapp; exact Hm').
       destruct (n_role n); try contradiction.
-      destruct (negb (member (node_cfg boot n) id)); [contradiction|].
+      destruct (negb (tracked (node_cfg boot n) id)); [contradiction|].
       destruct (cc_of_payload p); [|contradiction].
       destruct (_ || _ || _); contradiction. }
     destruct (handle_cc id (node_cfg boot n) ev n pend) as [[n1 out] pend1]. cbn [fst snd] in Hh.
